@@ -109,7 +109,11 @@ def scan(text, ctx, macros, fname, depth=0):
             if tpl is not None: templates.append(tpl); continue
             mo = re.fullmatch(r'options\s*\((.*)\)', a, re.S)
             if mo: options += [o.strip() for o in mo.group(1).split(',') if o.strip()]; continue
-            operands.append(re.sub(r'\s+', ' ', a))
+            a = re.sub(r'\s+', ' ', a)
+            # a bare local variable as the bound expression is recorded as `_`: renaming a local is not a
+            # change of the block (which variable is bound where is decided by running the code)
+            a = re.sub(r'^((?:\w+ = )?(?:in|out|inout|lateout|inlateout)\("?\w+"?\)) [A-Za-z_]\w*$', r'\1 _', a)
+            operands.append(a)
         if not templates: raise SystemExit('asm! without template in ' + fname)
         fns = re.findall(r'\bfn\s+(\w+)', text[:m.start()])
         fn = fns[-1] if fns else '?'
@@ -122,7 +126,10 @@ def scan(text, ctx, macros, fname, depth=0):
             bstart = text.index('{', fm[-1].end())
             bend = match_paren(text, bstart, '{', '}')
             body = text[bstart + 1:m.start()] + 'ASM' + text[end + 1:bend]
-            shapes.append((fname + '::' + fn + ctx, templates, re.sub(r'\s+', '', body)))
+            shape = re.sub(r'\s+', '', body)
+            # the name of the local that receives the value read is immaterial
+            shape = re.sub(r'^let(\w+):(u8|u16|u32);unsafe\{ASM;\}\1$', r'let_:\2;unsafe{ASM;}_', shape)
+            shapes.append((fname + '::' + fn + ctx, templates, shape))
     for name, (params, body) in macros.items():
         for m in re.finditer(r'\b' + name + r'!\s*\(', text):
             end = match_paren(text, m.end() - 1, '(', ')')
